@@ -88,6 +88,9 @@ pub struct Kanata {
     /// Index into `cfg_paths`, used to know which file to live reload. Changes when cycling
     /// through the configuration files.
     pub cur_cfg_idx: usize,
+    /// Index into `cfg_paths` of the file that the running configuration was loaded from.
+    /// `cur_cfg_idx` goes back to this if a live reload fails.
+    loaded_cfg_idx: usize,
     /// The potential key outputs of every key input. Used for managing key repeat.
     pub key_outputs: cfg::KeyOutputs,
     /// Handle to the keyberon library layout.
@@ -361,6 +364,7 @@ impl Kanata {
             kbd_out,
             cfg_paths: args.paths.clone(),
             cur_cfg_idx: 0,
+            loaded_cfg_idx: 0,
             key_outputs: cfg.key_outputs,
             layout: cfg.layout,
             layer_info: cfg.layer_info,
@@ -498,6 +502,7 @@ impl Kanata {
             kbd_out,
             cfg_paths: vec!["config string".into()],
             cur_cfg_idx: 0,
+            loaded_cfg_idx: 0,
             key_outputs: cfg.key_outputs,
             layout: cfg.layout,
             layer_info: cfg.layer_info,
@@ -612,9 +617,13 @@ impl Kanata {
             Ok(c) => c,
             Err(e) => {
                 log::error!("{e:?}");
+                // The running configuration stays in effect;
+                // a plain reload must keep referring to its file and not the one that failed.
+                self.cur_cfg_idx = self.loaded_cfg_idx;
                 bail!("failed to parse config file");
             }
         };
+        self.loaded_cfg_idx = self.cur_cfg_idx;
         update_kbd_out(&cfg.options, &self.kbd_out)?;
         #[cfg(target_os = "windows")]
         set_win_altgr_behaviour(cfg.options.windows_opts.windows_altgr);
